@@ -2,6 +2,7 @@
 from .. import runner
 from ..harnesses import HPayload
 from ..monitors import mon_payload
+from .common import live_part, live3_part
 
 RULE = ('H-PAYLOAD: one step from running orders (0, 1, 3 stories; metadata before/between; plus running orders holding '
         'every subset of the metadata keys) under every payload-carrying class (roStoryAppend/Insert/Replace, '
@@ -11,7 +12,7 @@ RULE = ('H-PAYLOAD: one step from running orders (0, 1, 3 stories; metadata befo
         'storyBody first/middle/last/only and every body sequence up to length B over {p, empty p, storyItem, foreign}; '
         'roReplace with 0..3 stories x 4 layouts; roMetadataReplace with every non-empty subset of the keys. Oracle: each '
         'carried element, read independently from the message text, is found by ID in str(ro) structurally equal '
-        '(whitespace-only text is formatting). Non-trivial = result differs from the input or exception/warning observed.')
+        '(whitespace-only text is formatting); also on the second and third message of two- and three-message histories on one live object (first messages: all 24 classes). Non-trivial = result differs from the input or exception/warning observed.')
 
 PAYLOAD_KINDS = ('StoryAppend', 'StoryInsert', 'StoryReplace', 'ItemInsert', 'ItemReplace', 'EAStoryInsert', 'EAStoryReplace',
                  'EAItemInsert', 'EAItemReplace', 'StorySend', 'RunningOrderReplace', 'MetaDataReplace')
@@ -30,6 +31,10 @@ def run(tier):
     else:
         h = HPayload(max_list=3, body_len=4, meta_keys=7)
     parts = [{'label': 'payloads', 'harness': h, 'monitors': [mon_payload], 'opts': {'max_depth': 0}}]
+    # the same oracle on the second / third message of histories executed on one live object (a payload that lands in a
+    # detached or stale part of the object never shows in str(ro))
+    parts.append(live_part(tier, [mon_payload], PAYLOAD_KINDS))
+    parts.append(live3_part(tier, [mon_payload], PAYLOAD_KINDS))
     return runner.graph_check(
         'C04', tier, parts, level='exploration', rule=RULE, vacuity=vacuity,
         assumptions=['payload IDs are unique within a message and do not collide with other stories (precondition of unique IDs)',
